@@ -207,6 +207,23 @@ fn main() {
                 Err(e) => writeln!(out, "ENCERR {} PANIC: {}", i, pmsg(e)).unwrap(),
             }
             if let Ok(g) = CKIN.lock() { for (n, d) in g.iter() { writeln!(out, "CKIN {} {} {}", i, n, tohex(d)).unwrap(); } }
+        } else if parts[0] == "U" {
+            let i: usize = parts[1].parse().unwrap();
+            writeln!(out, "BEGIN U {}", i).unwrap(); out.flush().unwrap();
+            for (tag, on) in [("ENCU", false), ("ENCG", true)] {
+                binary_codec::REGISTRY_ENABLED.store(on, std::sync::atomic::Ordering::SeqCst);
+                let r = std::panic::catch_unwind(std::panic::AssertUnwindSafe(|| {
+                    let obj = build(i);
+                    let mut buf = BytesMut::new();
+                    obj.encode(&mut buf);
+                    tohex(&buf[..])
+                }));
+                match r {
+                    Ok(h) => writeln!(out, "{} {} {}", tag, i, h).unwrap(),
+                    Err(e) => writeln!(out, "{} {} ERR PANIC: {}", tag, i, pmsg(e)).unwrap(),
+                }
+            }
+            binary_codec::REGISTRY_ENABLED.store(true, std::sync::atomic::Ordering::SeqCst);
         } else if parts[0] == "D" || parts[0] == "R" {
             let cid = parts[1];
             writeln!(out, "BEGIN D {}", cid).unwrap(); out.flush().unwrap();
